@@ -134,6 +134,7 @@ def main():
     def nontriv_sel(i):
         ci, qi = selmeta[i]
         return len(cases[ci]["orders"]) > 0
+    whole_runs(ck, rng, thorough, evalfam)
     ck.family("selection_exposures", len(selrows), len({r for r in selrows if "mk" in r}), smis, spbad,
               ambiguous=sum(1 for v in scmp if v == 1),
               dist={"queries": len(selrows), "with_exclusion": sum(1 for ci, qi in selmeta if cases[ci]["queries"][qi]["ex"]),
@@ -153,6 +154,57 @@ def main():
                 {"call": "Blotter.market_exposure", "orders": cases[ci]["orders"], "extra": cases[ci]["extra"], "query": cases[ci]["queries"][qi], "impl": res[ci][qi],
                  "failed": "property" if i in mpbad else "model-mismatch"})
     return ck.finish("random blotters of real orders (0-4 orders on 1-4 selections, both sides, LIMIT/LINE_RANGE/LOC/MOC, every status incl. None, any matched/remaining split, orders of another strategy mixed in) x queries with/without exclusion and prospective order (incl. exclusion==new) x active runners 1-7, winners 0-3; model evaluated with both tie-breaks (equal => exact equality demanded, else only the property); the property checker (brute force over fill subsets / winner sets) is evaluated on the implementation's figures for every case")
+
+
+SNAP_STATUS = {"Pending": "PENDING", "Executable": "EXECUTABLE", "Execution complete": "EXECUTION_COMPLETE", "Cancelling": "CANCELLING", "Updating": "UPDATING",
+               "Replacing": "REPLACING", "Violation": "VIOLATION", "Expired": "EXPIRED", None: "NONE"}
+
+
+def whole_runs(ck, rng, thorough, evalfam):
+    """the strategy reads its exposures on every runner at every update of whole simulated runs (orders acknowledged, partly filled, cancelled,
+    replaced, re-priced by a runner removal, converted at the off): the figures reported at each instant against the model / the brute-force
+    spec applied to the order snapshot of the same instant - a cache or memo inside the blotter that goes stale shows up here"""
+    import simgen
+    n = 160 if thorough else 40
+    scs = []
+    for _ in range(n):
+        s = simgen.gen_scenario(rng, {"kinds": ["L"] * 8 + ["MOC", "LOC"], "p_manage": 0.4, "nstrats": [1, 2], "p_remove": 0.15, "p_place": 0.7, "min_upd": 7, "max_upd": 12,
+                                      "adjs": [1000, 2000, 3300, 250], "nmarkets": [1]})
+        for sp in s["strategies"]:
+            sp["read_exposure"] = True
+        scs.append(s)
+    outs = run_impl_parallel("simlib", [{"scenarios": [simgen.to_impl(x) for x in ch], "observe": "all"} for ch in chunked(scs, 20)], timeout=3600)
+    impl = [r for o in outs for r in o["out"]]
+    rows, meta = [], []
+    for i, (sc, io) in enumerate(zip(scs, impl)):
+        for ob in io["obs"]:
+            if ob.get("cb") != "book" or "expo" not in ob:
+                continue
+            mine = [o for o in ob["orders"] if o["strategy"] == ob["s"]]
+            for key, vals in ob["expo"].items():
+                sel = int(key.split("/")[0])
+                os_ = []
+                for k, o in enumerate(mine):
+                    if o["sel"] != sel:
+                        continue
+                    kind = {"LIMIT": "L", "LIMIT_ON_CLOSE": "LOC", "MARKET_ON_CLOSE": "MOC"}[o["otype"]]
+                    d = {"sel": sel, "hc": 0, "side": o["side"], "kind": kind, "status": SNAP_STATUS[o["status"]],
+                         "matched": int(round(o["matched"] * 100)), "avg": int(round(o["avg"] * 100)),
+                         "rem": int(round(o["remaining"] * 100)) if kind == "L" else 0, "price": int(round((o["price"] or 0) * 100)),
+                         "liab": int(round((o["liab"] or 0) * 100)) if kind != "L" else 0}
+                    os_.append(coq_order(k, d))
+                if not os_:
+                    continue
+                rows.append("(%s, None, None, %s, %s)" % (cl(os_), zl(vals[:6]), z(vals[6])))
+                meta.append((i, ob["pt"], ob["s"], sel))
+    cmp_, pbad = evalfam("c16run", rows, "selq", "sel_cmp", "sel_prop")
+    mis = [k for k, v in enumerate(cmp_) if v == 2]
+    ck.family("exposures_over_whole_runs", len(rows), len(set(rows)), mis, pbad, ambiguous=sum(1 for v in cmp_ if v == 1),
+              dist={"runs": len(scs), "snapshots_with_orders": len(rows), "runs_aborted_by_impl": sum(1 for io in impl if io["error"])})
+    for k in (pbad or mis)[:2]:
+        i, pt, st, sel = meta[k]
+        ck.fail("C16-whole-run", "at the update published at %s strategy %d's reported exposures on selection %d differ from the worst case over its orders as they are at that instant" % (pt, st, sel),
+                {"scenario": scs[i], "pt": pt, "strategy": st, "selection": sel, "row": rows[k], "how": "harness/impl/simlib.py with read_exposure (Blotter.get_exposures at every update)"})
 
 
 def replay(path):
